@@ -227,6 +227,9 @@ def boundary_stream(ctx, res, n):
              {"k": "ipv4addr", "required": False}, {"k": "ipv4net", "required": False}, {"k": "int", "required": False, "min": -(2 ** 53), "max": 2 ** 53},
              {"k": "port", "required": False}, {"k": "hostname", "required": False, "allow_ipv4": False}, {"k": "hostname", "required": False, "min_len": 5},
              {"k": "hostname", "required": False, "max_len": 4, "allow_ipv4": False}, {"k": "bool", "required": False}, {"k": "float", "required": False, "min": 0.5},
+             # integer fields declared with fractional bounds: the bound is the number that was written
+             {"k": "int", "required": False, "min": 0.5, "max": 100}, {"k": "int", "required": False, "max": -0.5}, {"k": "port", "required": False, "min": 1023.5},
+             {"k": "int", "required": False, "min": -2.5, "max": 2.5},
              # choices next to a case transformation: what is held is one of the declared choices, as declared
              {"k": "string", "required": False, "case": "lower", "choices": ["Alpha", "beta", "GAMMA"]}, {"k": "string", "required": False, "case": "upper", "choices": ["Alpha", "beta", "GAMMA"]},
              {"k": "string", "required": False, "case": "lower", "strip": True, "choices": ["dev", "Prod"]}, {"k": "loglevel", "required": False, "levels": ["DEBUG", "info"]}]
@@ -479,16 +482,55 @@ def fixed_stream(ctx, res):
                                 {"stream": "fixed", "what": "custom", "kind": kind, "value": F.enc_val(v), "route": route, "held": F.enc_val(held), "want": F.enc_val(want)})
 
 
+def dynamic_keywords_stream(ctx, res):
+    """constructor keywords are one of the routes of assignment: on a dynamic configuration (plain and config type) a keyword for an
+    undeclared field reads back as the value given (the same as after assignment by attribute or dotted path), next to declared
+    fields whose keywords are validated; on a strict schema a keyword that names no field is refused"""
+    import cincoconfig as cc
+    for typed in (False, True):
+        s = cc.Schema(dynamic=True)
+        s.port = cc.PortField(default=80)
+        s.name = cc.StringField(default="n", transform_case="upper")
+        s.sub.level = cc.IntField(default=1, max=5)
+        T = cc.make_type(s, "C01Dyn") if typed else s
+        for kw in ({"extra": "x"}, {"extra": 0}, {"extra": [1, 2], "port": "81"}, {"extra": None, "name": "abc"}, {"a": 1, "b": {"c": 2}, "sub": {"level": "3"}}):
+            case = {"stream": "dynamic-keywords", "config_type": typed, "keywords": repr(kw)}
+            res.case(stable(case), kind="dynamic-keywords")
+            try:
+                cfg = T(**kw)
+                ref = T()
+                for k, v in kw.items():
+                    ref[k] = v
+                got, want = cfg.to_tree(), ref.to_tree()
+                reads = {k: cfg[k] for k in kw if k != "sub"}
+                wants = {k: ref[k] for k in kw if k != "sub"}
+            except Exception as e:  # noqa
+                res.violate("C01:route-changes-normal-form:ctor", "constructor keywords of a dynamic configuration raised %s" % type(e).__name__, dict(case, error=str(e)[:100]))
+                continue
+            if got != want or reads != wants:
+                res.violate("C01:route-changes-normal-form:ctor", "a constructor keyword of a dynamic configuration does not read back like the same assignment by dotted path",
+                            dict(case, by_keyword=repr(got)[:200], by_assignment=repr(want)[:200]))
+    strict = cc.Schema()
+    strict.port = cc.PortField(default=80)
+    res.case("dynamic-keywords:strict", kind="dynamic-keywords")
+    try:
+        strict(prot=81)
+        res.violate("C01:route-changes-normal-form:ctor", "a keyword that names no field of a non-dynamic schema was accepted silently", {"stream": "dynamic-keywords", "keyword": "prot"})
+    except Exception:  # noqa
+        pass
+
+
 def run(ctx, n_quick=250, n_thorough=8000):
     res = Result()
 
     def orc(res, case, sk, ops, impl, live, tmp, keypath):
         oracle(res, case, sk, ops, impl, live, tmp, keypath)
         oracle_stepwise(res, case, sk, ops, tmp, keypath)
-    P.run_stream(ctx, res, "C01", ctx.n(n_quick, n_thorough), orc)
+    guard(res, "C01", lambda: P.run_stream(ctx, res, "C01", ctx.n(n_quick, n_thorough), orc))
     guard(res, "C01", proxy_stream, ctx, res, ctx.n(150, 5000))
     guard(res, "C01", boundary_stream, ctx, res, ctx.n(120, 3000))
     guard(res, "C01", fixed_stream, ctx, res)
+    guard(res, "C01", dynamic_keywords_stream, ctx, res)
     return res
 
 
